@@ -577,6 +577,10 @@ func stepWriteCas(d Doc, op *Op, r *Res, env Env, body string, exp uint32, casCu
 				return fail(tags, "Append with a CAS that is not current returned %s", orOK(r.Err))
 			}
 			return unchanged(d, "body")
+		} else if r.Err == ETooBig && env.MaxDoc > 0 && len(d.Body)+len(body) > env.MaxDoc {
+			// whether the limit applies to the appended piece or to the whole body is not specified; a
+			// refused append must leave the document as it was
+			return unchanged(d, "body")
 		} else if r.Err != "" {
 			return fail(tags, "Append with the current CAS failed with %s", r.Err)
 		}
